@@ -138,7 +138,8 @@ static void on_tracker(std::function<void()> fn) {
   std::promise<void> p;
   auto f = p.get_future();
   torrent::tracker_thread::thread()->callback([&] { fn(); p.set_value(); });
-  f.wait();
+  // belt and braces: wake the tracker thread's poll even if the callback queue was not empty when we queued
+  while (f.wait_for(20ms) != std::future_status::ready) torrent::tracker_thread::thread()->interrupt();
 }
 
 static void quiesce() {
@@ -311,7 +312,8 @@ static std::string run_case(const std::vector<std::string>& t) {
 
 
 // ------------------------------------------------------------------ UDP wire observation
-// Case:  U <up> <comp> <left> ; <evop> ...   with evop in ss sc sp mr ST SP
+// Case:  U <up> <comp> <left> ; <evop> ...   with evop in ss sc sp mr ST SP nx; a trailing '!' = the tracker stays
+//        silent and the worker times out (UdpRouter retransmits, then reports the failure)
 // One REAL TrackerUdp (inserted with TrackerList::insert_url, driven by the real controller, tracker::Manager,
 // tracker thread and UdpRouter) announces to an in-process UDP socket that plays the tracker (BEP 15): connect
 // reply, then the 98-byte announce is read off the wire and answered with a success.
@@ -390,20 +392,51 @@ static std::string run_udp_case(const std::vector<std::string>& t) {
     quiesce();
     try {
       tc.enable();
+      int64_t now = BASE_US;
       for (size_t p = 5; p < t.size(); p++) {
-        const std::string& o = t[p];
+        std::string o = t[p];
+        bool silent = !o.empty() && o.back() == '!';      // the tracker does not answer: worker-side timeout
+        if (silent) o.pop_back();
         if      (o == "ss") tc.send_start_event();
         else if (o == "sc") tc.send_completed_event();
         else if (o == "sp") tc.send_stop_event();
         else if (o == "mr") tc.manual_request(false);
         else if (o == "ST") { tc.disable(); tc.enable(); tc.send_start_event(); }
         else if (o == "SP") { tc.send_stop_event(); tc.disable(); tc.enable(torrent::TrackerController::enable_dont_reset_stats); }
+        else if (o == "nx") {
+          if (tc.m_task_timeout.is_scheduled() && tc.m_task_timeout.time_or_zero().count() > now) now = tc.m_task_timeout.time_or_zero().count();
+          g_main->set_cached_time(std::chrono::microseconds(now));
+          g_main->m_scheduler->perform(std::chrono::microseconds(now));
+        }
         else { out += " BADOP"; break; }
         quiesce();
-        // after quiescence the worker's requesting flag tells whether an announce is on its way
-        std::string w = list.has_active() ? serve_announce(fd, 5000) : std::string("-");
-        // let the success travel tracker thread -> main thread
-        for (int i = 0; i < 200 && w != "-" && list.has_active(); i++) { usleep(2000); quiesce(); }
+        std::string w = "-";
+        if (list.has_active() && !silent) {
+          // after quiescence the worker's requesting flag tells whether an announce is on its way
+          w = serve_announce(fd, 5000);
+          // let the success travel tracker thread -> main thread
+          for (int i = 0; i < 200 && w != "-" && list.has_active(); i++) { usleep(2000); quiesce(); }
+        } else if (list.has_active()) {
+          // silent tracker: step the tracker thread's clock through UdpRouter's retransmission timeouts
+          // (15 s, 30 s, 45 s) until the worker gives up and reports the failure; count the datagrams
+          int datagrams = 0;
+          unsigned char pkt[600];
+          timeval tv{0, 200000};
+          setsockopt(fd, SOL_SOCKET, SO_RCVTIMEO, &tv, sizeof tv);
+          for (int round = 0; round < 6 && list.has_active(); round++) {
+            while (recv(fd, pkt, sizeof pkt, 0) > 0) datagrams++;
+            auto ahead = std::chrono::seconds(50 * (round + 1));   // the loop resets the clock: jump cumulatively
+            on_tracker([ahead] {
+              auto th = torrent::tracker_thread::thread();
+              th->set_cached_time(th->cached_time() + ahead);
+              th->m_scheduler->perform(th->cached_time());
+            });
+            quiesce();
+          }
+          while (recv(fd, pkt, sizeof pkt, 0) > 0) datagrams++;
+          quiesce();
+          w = list.has_active() ? std::string("no-timeout") : (datagrams >= 1 && datagrams <= 3 ? std::string("timeout") : "timeout-after-" + std::to_string(datagrams) + "-datagrams");
+        }
         quiesce();
         if (p > 5) out += " | ";
         out += w;
